@@ -365,6 +365,7 @@ class Engine:
         if p[0] == 'v':
             assert isinstance(v, En)
             idx = self.variant_index(v.ty, p[1])
+            if idx not in v.pay: raise AbsentVariant('write through absent variant %s' % (p[1],))
             pay = dict(v.pay); pay[idx] = self.put(pay[idx], rest, new, st); return En(v.ty, v.d, pay)
         if p[0] == 'i':
             assert isinstance(v, VecV)
@@ -375,7 +376,10 @@ class Engine:
             else:
                 for j in range(len(l)):
                     if l[j] is UNINIT: continue
-                    l[j] = merge(i.v == j, self.put(l[j], rest, new, st), l[j])
+                    try:
+                        l[j] = merge(i.v == j, self.put(l[j], rest, new, st), l[j])
+                    except AbsentVariant:
+                        pass
             return VecV(v.len, v.cap, l)
         raise Unsupported('put path %r' % (p,))
 
@@ -526,6 +530,16 @@ class Engine:
         if op == 'SubWithOverflow':
             ov = z3.Not(z3.BVSubNoUnderflow(x, y, sg)) if not sg else z3.Or(z3.Not(z3.BVSubNoOverflow(x, y)), z3.Not(z3.BVSubNoUnderflow(x, y, True)))
             return Agg('(T, bool)', (S(x - y, ty), S(ov, 'bool')))
+        if op == 'MulWithOverflow':
+            b2 = BITS[ty]
+            if sg: wide = z3.SignExt(b2, x) * z3.SignExt(b2, y); ov = wide != z3.SignExt(b2, x * y)
+            else: wide = z3.ZeroExt(b2, x) * z3.ZeroExt(b2, y); ov = wide != z3.ZeroExt(b2, x * y)
+            return Agg('(T, bool)', (S(x * y, ty), S(ov, 'bool')))
+        if op == 'Rem':
+            return S(z3.SRem(x, y) if sg else z3.URem(x, y), ty)
+        if op in ('Shl', 'Shr'):
+            yy = y if y.size() == x.size() else (z3.ZeroExt(x.size() - y.size(), y) if y.size() < x.size() else z3.Extract(x.size() - 1, 0, y))
+            return S(x << yy if op == 'Shl' else ((x >> yy) if sg else z3.LShR(x, yy)), ty)
         raise Unsupported('binop ' + op)
 
     def unop(self, op, a, st=None):
@@ -546,6 +560,10 @@ class Engine:
             if isinstance(v, Agg) and v.ty.startswith('{closure@'):
                 return FnV('closure', v.ty, v)
             return v
+        if kind.startswith('PointerExposeProvenance') or (kind.startswith('PtrToPtr') and isinstance(v, Ref)):
+            if kind.startswith('PtrToPtr'): return v
+            if isinstance(v, Ref): return S(self.addr_of(self.cur_state, v), 'usize')
+            return v
         if isinstance(v, S) and ty in BITS:
             if v.conc():
                 return S(wrap(int(v.v), ty), ty)
@@ -557,7 +575,11 @@ class Engine:
         raise Unsupported('cast %r as %s (%s)' % (v, ty, kind))
 
     # ---- rvalues
+    def addr_of(self, st, ref):
+        raise Unsupported('address of a reference (no address model installed)')
+
     def rvalue(self, st, fr, rv, dest_ty=None):
+        self.cur_state = st
         k = rv.kind
         if k == 'use': return self.operand(st, fr, rv.args[0])
         if k == 'ref':
@@ -626,6 +648,7 @@ class Engine:
         if isinstance(v, S): return v.ty
         if isinstance(v, VecV): return 'Vec'
         if isinstance(v, FnV): return 'fn'
+        if isinstance(v, Opq): return 'Opq'
         return None
 
     def lookup_method(self, head, trait, meth, args, st, callee):
@@ -648,6 +671,7 @@ class Engine:
         if name and name in self.prog.free: return ('mir', self.prog.free[name])
         b = BUILTIN_METHODS.get((head, meth)) or BUILTIN_METHODS.get((trait, meth))
         if b: return ('builtin', b)
+        if head in BITS and meth in INT_METHODS: return ('builtin', bi_int_method)
         # generic type parameter: dispatch on runtime type of first arg
         if args and (len(head) <= 2 or head in ('Self',)):
             rh = self.runtime_head(args[0], st)
@@ -921,8 +945,46 @@ def bi_vec_push(eng, st, args, dest, ret_bb, callee=''):
     el = list(v.el)
     if n >= len(el): el.append(x)
     else: el[n] = x
-    eng.store_ref(st, r, VecV(S(n + 1, 'usize'), max(v.cap, n + 1), el))
+    eng.store_ref(st, r, VecV(S(n + 1, 'usize'), cap_at_least(v.cap, S(n + 1, 'usize')), el))
     return ('value', UNIT)
+
+def cap_S(cap):
+    return cap if isinstance(cap, S) else S(cap, 'usize')
+
+def cap_at_least(cap, need):
+    """capacity after growing to hold `need` elements: unchanged if already large enough, else exactly `need`
+    (std may allocate more; the model picks the documented lower bound)"""
+    cap = cap_S(cap)
+    if cap.conc() and need.conc(): return S(max(cap.v, need.v), 'usize')
+    a, b = bv(cap.v, 'usize'), bv(need.v, 'usize')
+    return S(z3.If(z3.UGE(a, b), a, b), 'usize')
+
+def bi_vec_with_capacity(eng, st, args, dest, ret_bb, callee=''):
+    return ('value', VecV(S(0, 'usize'), args[0], []))
+
+def bi_vec_reserve(eng, st, args, dest, ret_bb, callee=''):
+    r, add = args
+    v = vec_of(eng, st, r)
+    need = eng.binop('AddWithOverflow', v.len, add)
+    ov = need.f[1]
+    newv = VecV(v.len, cap_at_least(v.cap, need.f[0]), v.el)
+    if ov.conc():
+        if ov.v: return ('panic', 'capacity overflow')
+        eng.store_ref(st, r, newv); return ('value', UNIT)
+    st2 = None
+    eng.store_ref(st, r, newv)
+    return ('fork', [(z3.Not(ov.v), ('value', UNIT)), (ov.v, ('panic', 'capacity overflow'))])
+
+def bi_opq_clone(eng, st, args, dest, ret_bb, callee=''):
+    v = args[0]
+    while isinstance(v, Ref): v = eng.deref(st, v)
+    return ('value', v)
+
+def bi_opq_eq(eng, st, args, dest, ret_bb, callee=''):
+    a, b = args
+    while isinstance(a, Ref): a = eng.deref(st, a)
+    while isinstance(b, Ref): b = eng.deref(st, b)
+    return ('value', S(a.e == b.e, 'bool'))
 
 def bi_vec_new(eng, st, args, dest, ret_bb, callee=''):
     return ('value', VecV(S(0, 'usize'), 0, []))
@@ -986,6 +1048,21 @@ def bi_into(eng, st, args, dest, ret_bb, callee=''):
     if isinstance(v, En): return ('value', v)
     return ('value', En('Option', S(1, 'isize'), {1: (v,)}))
 
+def bi_int_method(eng, st, args, dest, ret_bb, callee=''):
+    """primitive integer methods that core implements with intrinsics"""
+    meth = strip_generics(callee).split('::')[-1]
+    a = args[0]
+    if meth.startswith('overflowing_'):
+        r = eng.binop({'add': 'AddWithOverflow', 'sub': 'SubWithOverflow', 'mul': 'MulWithOverflow'}[meth[12:]], a, args[1])
+        return ('value', Agg('tuple', r.f))
+    if meth == 'wrapping_neg':
+        return ('value', eng.binop('Sub', S(0, a.ty), a))
+    if meth.startswith('wrapping_'):
+        return ('value', eng.binop({'add': 'Add', 'sub': 'Sub', 'mul': 'Mul'}[meth[9:]], a, args[1]))
+    raise Unsupported('integer method ' + callee)
+
+INT_METHODS = {'overflowing_add', 'overflowing_sub', 'overflowing_mul', 'wrapping_add', 'wrapping_sub', 'wrapping_mul', 'wrapping_neg'}
+
 def bi_default_zero(eng, st, args, dest, ret_bb, callee=''):
     q = split_qualified(strip_generics(callee))
     return ('value', S(0, q[0].strip()))
@@ -993,7 +1070,38 @@ def bi_default_zero(eng, st, args, dest, ret_bb, callee=''):
 def bi_wrapping_add(eng, st, args, dest, ret_bb, callee=''):
     return ('value', eng.binop('Add', args[0], args[1]))
 
+def bi_as_ptr_range(eng, st, args, dest, ret_bb, callee=''):
+    r = args[0]
+    v = vec_of(eng, st, r)
+    return ('value', Agg('Range', (Ref(r.cell, r.path + (('i', S(0, 'usize')),)), Ref(r.cell, r.path + (('i', v.len),)))))
+
+def bi_range_contains(eng, st, args, dest, ret_bb, callee=''):
+    rng = eng.deref(st, args[0]); x = eng.deref(st, args[1])
+    while isinstance(x, Ref) and not isinstance(rng.f[0], Ref): x = eng.deref(st, x)
+    lo, hi = rng.f[0], rng.f[1]
+    if isinstance(lo, Ref):
+        a = S(eng.addr_of(st, lo), 'usize'); b = S(eng.addr_of(st, hi), 'usize')
+        while isinstance(x, Ref) and isinstance(eng.deref(st, x), Ref): x = eng.deref(st, x)
+        p = S(eng.addr_of(st, x), 'usize')
+    else:
+        a, b, p = lo, hi, x
+    c1 = eng.binop('Le', a, p); c2 = eng.binop('Lt', p, b)
+    return ('value', eng.binop('BitAnd', c1, c2))
+
+def bi_size_of(eng, st, args, dest, ret_bb, callee=''):
+    if 'Node<T>' in callee and getattr(eng, 'node_size', None): return ('value', S(eng.node_size, 'usize'))
+    raise Unsupported('size_of ' + callee)
+
+def bi_slice_iter_any(eng, st, args, dest, ret_bb, callee=''):
+    rf = args[0]; v = vec_of(eng, st, rf)
+    return ('value', Agg('SliceIter', (rf, S(0, 'usize'), v.len)))
+
+def bi_vec_capacity(eng, st, args, dest, ret_bb, callee=''):
+    v = vec_of(eng, st, args[0])
+    return ('value', v.cap if isinstance(v.cap, S) else S(v.cap, 'usize'))
+
 BUILTINS = {
+    'size_of': bi_size_of,
     'panic': bi_panic, 'panic_fmt': bi_panic, 'assert_failed': bi_panic, 'unwrap_failed': bi_panic,
     'replace': bi_mem_replace,
 }
@@ -1002,8 +1110,12 @@ BUILTIN_METHODS = {
     ('Arguments', 'from_str'): bi_opaque, ('Arguments', 'new'): bi_opaque, ('Arguments', 'from_str_nonconst'): bi_opaque,
     ('Vec', 'index'): bi_vec_index, ('Vec', 'index_mut'): bi_vec_index, ('Vec', 'len'): bi_vec_len, ('Vec', 'push'): bi_vec_push,
     ('Vec', 'new'): bi_vec_new, ('Vec', 'clear'): bi_vec_clear, ('Vec', 'deref'): bi_identity, ('Vec', 'deref_mut'): bi_identity,
-    ('Vec', 'as_slice'): bi_identity,
+    ('Vec', 'as_slice'): bi_identity, ('Vec', 'with_capacity'): bi_vec_with_capacity, ('Vec', 'capacity'): bi_vec_capacity,
+    ('Vec', 'reserve'): bi_vec_reserve, ('Opq', 'clone'): bi_opq_clone, ('Opq', 'eq'): bi_opq_eq,
     ('[Node<T>]', 'get'): bi_slice_get, ('[Node<T>]', 'get_mut'): bi_slice_get,
+    ('[Node<T>]', 'as_ptr_range'): bi_as_ptr_range, ('Range', 'contains'): bi_range_contains, ('mem', 'size_of'): bi_size_of,
+    ('[Node<T>]', 'iter'): bi_slice_iter_any, ('[Node<T>]', 'iter_mut'): bi_slice_iter_any, ('[Node<T>]', 'len'): bi_vec_len,
+    ('Vec', 'as_mut_slice'): bi_identity, ('Vec', 'iter'): bi_slice_iter_any, ('Vec', 'iter_mut'): bi_slice_iter_any,
     ('NonZero', 'new'): bi_nonzero_new, ('NonZero', 'get'): bi_nonzero_get, ('NonZero', 'eq'): bi_prim_eq,
     ('usize', 'eq'): bi_prim_eq, ('i16', 'eq'): bi_prim_eq, ('isize', 'eq'): bi_prim_eq, ('u8', 'eq'): bi_prim_eq, ('bool', 'eq'): bi_prim_eq,
     ('mem', 'replace'): bi_mem_replace,
@@ -1012,21 +1124,37 @@ BUILTIN_METHODS = {
     ('Into', 'into'): bi_into,
     ('i16', 'default'): bi_default_zero, ('usize', 'default'): bi_default_zero,
 }
-SHIMS = {
-    ('Option', 'is_some'): 'option_is_some', ('Option', 'is_none'): 'option_is_none', ('Option', 'is_some_and'): 'option_is_some_and',
-    ('Option', 'map'): 'option_map', ('Option', 'map_or'): 'option_map_or', ('Option', 'or'): 'option_or', ('Option', 'and'): 'option_and',
-    ('Option', 'xor'): 'option_xor', ('Option', 'or_else'): 'option_or_else', ('Option', 'and_then'): 'option_and_then',
-    ('Option', 'filter'): 'option_filter', ('Option', 'take'): 'option_take', ('Option', 'unwrap'): 'option_unwrap',
-    ('Option', 'expect'): 'option_expect', ('Option', 'unwrap_or'): 'option_unwrap_or',
-    ('Result', 'expect'): 'result_expect', ('Result', 'unwrap'): 'result_unwrap', ('Result', 'is_ok'): 'result_is_ok', ('Result', 'is_err'): 'result_is_err',
-    ('Iterator', 'any'): 'iter_any', ('Iterator', 'all'): 'iter_all', ('Iterator', 'find'): 'iter_find', ('Iterator', 'find_map'): 'iter_find_map',
-    ('Iterator', 'skip'): 'iter_skip', ('Iterator', 'count'): 'iter_count',
-    ('i16', 'is_negative'): 'i16_is_negative', ('usize', 'checked_sub'): 'usize_checked_sub',
-}
+SHIMS = {}
+for _m in ('is_some', 'is_none', 'is_some_and', 'is_none_or', 'map', 'map_or', 'map_or_else', 'or', 'and', 'xor', 'or_else', 'and_then', 'filter',
+           'take', 'replace', 'insert', 'get_or_insert', 'unwrap', 'expect', 'unwrap_or', 'unwrap_or_else', 'unwrap_or_default', 'ok_or',
+           'ok_or_else', 'zip', 'as_ref', 'as_mut', 'copied', 'cloned', 'into_iter'):
+    SHIMS[('Option', _m)] = 'option_' + _m
+for _m in ('expect', 'unwrap', 'expect_err', 'unwrap_err', 'unwrap_or', 'unwrap_or_else', 'is_ok', 'is_err', 'ok', 'err', 'map', 'map_err',
+           'and_then', 'or_else'):
+    SHIMS[('Result', _m)] = 'result_' + _m
+for _m in ('any', 'all', 'find', 'find_map', 'position', 'nth', 'count', 'last', 'fold', 'for_each', 'skip', 'take', 'rev', 'take_while', 'skip_while',
+           'map', 'filter', 'filter_map', 'enumerate', 'chain', 'peekable', 'by_ref'):
+    SHIMS[('Iterator', _m)] = 'iter_' + _m
+SHIMS[('IntoIterator', 'into_iter')] = 'iter_into_iter'
+SHIMS[('Peekable', 'peek')] = 'peekable_peek'
+SHIMS[('iter', 'successors')] = 'iter_successors'; SHIMS[('iter', 'from_fn')] = 'iter_from_fn'
+for _m in ('is_negative', 'is_positive', 'abs', 'wrapping_neg', 'wrapping_abs', 'checked_neg', 'checked_add', 'checked_sub', 'saturating_add',
+           'saturating_sub', 'saturating_neg', 'signum', 'min', 'max'):
+    SHIMS[('i16', _m)] = 'i16_' + _m
+for _m in ('checked_sub', 'checked_add', 'saturating_sub', 'saturating_add', 'min', 'max'):
+    SHIMS[('usize', _m)] = 'usize_' + _m
+SHIMS[('Range', 'next')] = 'range_next'; SHIMS[('Range', 'next_back')] = 'range_next_back'
+SHIMS[('PartialEq', 'ne')] = 'partial_ne'
+SHIMS[('bool', 'then_some')] = 'bool_then_some'; SHIMS[('bool', 'then')] = 'bool_then'
 SHIMS3 = {
-    ('Option', 'PartialEq', 'eq'): 'option_eq', ('Option', 'Clone', 'clone'): 'option_clone',
+    ('Option', 'PartialEq', 'eq'): 'option_eq', ('Option', 'PartialEq', 'ne'): 'option_ne', ('Option', 'Clone', 'clone'): 'option_clone',
+    ('Option', 'Default', 'default'): 'option_default',
     ('Option', 'Try', 'branch'): 'option_branch', ('Option', 'FromResidual', 'from_residual'): 'option_from_residual',
+    ('Option', 'Try', 'from_output'): 'option_from_output',
     ('Result', 'Try', 'branch'): 'result_branch', ('Result', 'FromResidual', 'from_residual'): 'result_from_residual',
+    ('Result', 'Try', 'from_output'): 'result_from_output',
+    ('Option', 'IntoIterator', 'into_iter'): 'option_into_iter',
+    ('Vec', 'Clone', 'clone'): 'vec_clone', ('Vec', 'PartialEq', 'eq'): 'vec_eq',
 }
 # <&T as PartialEq>::eq
 BUILTIN_METHODS[('&T', 'eq')] = bi_ref_eq
